@@ -45,7 +45,8 @@ def gen_case(rng, idx, tier):
         nz, nzr = spec['nz'], spec['nzr']
         ops = {'distract': bool(rng.random() < 0.8), 'mid': bool(rng.random() < 0.7),
                'late': bool(rng.random() < 0.5), 'reuse': bool(rng.random() < 0.4),
-               'dual_mid': bool(rng.random() < 0.4)}
+               'dual_mid': bool(rng.random() < 0.4),
+               'mid_rvar': int(rng.integers(1, 3)) if rng.random() < 0.35 else 0}
         dis = []
         for _ in range(int(rng.integers(1, 4))):
             pr, n_, _c = S.random_set(rng, nzr, R.ALL_KINDS, allow_aux=False)
@@ -164,7 +165,7 @@ def run_ro(spec, ctx):
     hr = np.random.default_rng(spec['hseed'])
     # ---------------- fresh build
     try:
-        BF = R.build(base)
+        BF = R.build(base, variant={'extra_rvar': int(ops.get('mid_rvar') or 0)})
         if ext is not None:
             wF = BF.model.dvar(1)
             y2F = None
@@ -229,6 +230,12 @@ def run_ro(spec, ctx):
             if ops['mid'] and hr.random() < 0.4:
                 midsolve(B)
         elif point == 'row':
+            if ops.get('mid_rvar') and not state.get('mid_rvar') and hr.random() < 0.5:
+                # another (unused) random variable declared between two uses of the rules (the
+                # fresh build declares it together with the others)
+                B.model.rvar(int(ops['mid_rvar']))
+                state['mid_rvar'] = True
+                events.append('mid_rvar')
             if ops['distract'] and hr.random() < 0.5:
                 distractor(B)
             if ops['mid'] and hr.random() < 0.35:
@@ -238,6 +245,10 @@ def run_ro(spec, ctx):
         if ops['distract'] and hr.random() < 0.5:
             pass
         BH = R.build(base, variant={'hook': hook})
+        if ops.get('mid_rvar') and not state.get('mid_rvar'):
+            BH.model.rvar(int(ops['mid_rvar']))
+            state['mid_rvar'] = True
+            events.append('late_rvar')
         if ops['distract']:
             distractor(BH)
         if ops['mid']:
@@ -270,7 +281,10 @@ def run_ro(spec, ctx):
         if C.solver_library_error(e):
             ctx.count('solver_library_error')
             return {'status': 'skip', 'reason': 'solver library raised: %s' % type(e).__name__}
-        return {'status': 'violation', 'mechanism': 'history_raises:' + _hist_class(events, ops),
+        mech_ = 'history_raises:' + _hist_class(events, ops)
+        if 'mid_rvar' in events and isinstance(e, ValueError) and 'broadcast' in str(e):
+            mech_ = 'ro_rvar_after_rule_use_raises'
+        return {'status': 'violation', 'mechanism': mech_,
                 'detail': {'what': 'the history raises, the fresh build of the same model solves',
                            'error': '%s: %s' % (type(e).__name__, str(e)[:100]),
                            'where': _where(e), 'history': events, 'fresh': rF[1]},
@@ -282,7 +296,9 @@ def run_ro(spec, ctx):
     sig = '|'.join('%s=%s' % (k, feats[k]) for k in sorted(feats))
     detail = []
     # captured supports
-    if ext is None and not ops['reuse']:
+    if ext is None and not ops['reuse'] and not ops.get('mid_rvar'):
+        # (with a random variable declared in between, supports captured earlier legitimately
+        # have fewer columns than in the fresh build; the optima are still compared)
         sF, sH = supports_of(BF), supports_of(BH)
         ctx.count('supports_compared', len(sF))
         if len(sF) == len(sH):
